@@ -223,8 +223,8 @@ func (ex *Exec) boundIf(st *State, cond *Term, msg string, instr ssa.Instruction
 	if cond.IsFalse() || st.dead() {
 		return
 	}
-	ex.unwinds = append(ex.unwinds, Event{Kind: "bound", PC: And(st.pc, cond), Pos: ex.pos(instr), Msg: msg, Case: ex.curCase})
-	st.pc = And(st.pc, Not(cond))
+	ex.unwinds = append(ex.unwinds, Event{Kind: "bound", PC: And(st.pcTerm(), cond), Pos: ex.pos(instr), Msg: msg, Case: ex.curCase})
+	st.assume(Not(cond))
 }
 
 func dropNil(p Value) Value {
